@@ -50,7 +50,7 @@ def unpack(src, dst):
 def fsck_n(bdir, img, env):
     cp = img + ".fsck"
     shutil.copyfile(img, cp)
-    rc, out, err = sh([os.path.join(bdir, "e2fsck", "e2fsck"), "-fn", cp], env, timeout=300)
+    rc, out, err = sh([os.path.join(bdir, "e2fsck", "e2fsck"), "-fn", cp], env, timeout=20)
     os.unlink(cp)
     return rc, (out + err).decode("latin-1")
 
